@@ -103,6 +103,50 @@ def _decimal_case(rng):
     return x + c0 + c1 + [ay]
 
 
+def _dec_zero_u_case(rng):
+    """results whose exact uncertainty is 0, on decimal / non-dyadic grids: equal dogmatic conditionals under any antecedent
+    (Case I, K = 0), or a dogmatic antecedent with two dogmatic conditionals (the correction term vanishes with u_x).  The
+    computed u is then pure rounding residue of the three mixtures (seeded C14_r4A: u taken as the remainder 1 - b - d)."""
+    den = rng.choice([10, 10, 100, 11, 7, 20, 3])
+
+    def dog():
+        k = rng.randint(0, den)
+        return [Fr(k, den), Fr(den - k, den), Fr(0)]
+    while True:
+        if rng.random() < 0.5:
+            x = _dec_tri(rng, den, rng.choice(["vac", "b0", "d0", "any", "any"])) + [_dec_rate(rng)]
+            c0 = dog()
+            c1 = list(c0)
+        else:
+            x = dog() + [_dec_rate(rng)]
+            c0, c1 = dog(), dog()
+        px = x[0] + x[3] * x[2]
+        if 0 < px < 1:
+            break
+    ay = rng.choice(DEC_RATES) if rng.random() < 0.5 else Fr(rng.randint(1, den - 1), den)
+    return x + c0 + c1 + [ay]
+
+
+def _dec_zero_u_hot(rng, fmt, want, tries=120000):
+    """cases of `_dec_zero_u_case` whose COMPUTED belief and disbelief mixtures overshoot 1 by more than eps (the three
+    mixtures are evaluated here in the format, operation by operation, as `deduce` does): there the exact u = 0 is the most
+    ill-conditioned quantity of the result -- a remainder `1 - b - d` is below -eps, the independent mixture of the u's is 0"""
+    R = lambda v: G.round_fmt(fmt, v)
+    e = G.EPS[fmt]
+    out = []
+    for _ in range(tries):
+        sc = _dec_zero_u_case(rng)
+        bx, dx, ux, a, b0, d0, _u0, b1, d1, _u1, _ay = [R(float(v)) for v in sc]
+        rv = R(1.0 - a)
+        bi = R(R(R(bx * b0) + R(dx * b1)) + R(ux * R(R(b0 * a) + R(b1 * rv))))
+        di = R(R(R(bx * d0) + R(dx * d1)) + R(ux * R(R(d0 * a) + R(d1 * rv))))
+        if R(R(1.0 - bi) - di) < -e:
+            out.append(sc)
+            if len(out) >= want:
+                break
+    return out
+
+
 def _small_rate_case(rng, fmt):
     """base rates log-uniform down to 1e-8 (or that close to 1), conditionals that differ by 10^-k in belief and / or
     disbelief (near ties, on either side), masses on the decimal grid or arbitrary"""
@@ -143,6 +187,10 @@ def decimal_streams(rng, fmt, n_dec, n_small):
             out.append(G.line("bdeduce", fmt, rng.choice(["B.o", "B.o", "B.o.p"]), [], sc))
         else:
             out.append(G.line("bdeduce_sym", fmt, "B.o", [rng.randint(0, 1)], sc))
+    for _ in range(n_dec // 8):
+        out.append(G.line("bdeduce", fmt, "B.o", [], _dec_zero_u_case(rng)))
+    for sc in _dec_zero_u_hot(rng, fmt, max(20, n_dec // 100)):
+        out.append(G.line("bdeduce", fmt, "B.o", [], sc))
     for _ in range(n_small):
         sc = _small_rate_case(rng, fmt)
         if rng.random() < 0.7:
